@@ -153,6 +153,14 @@ SPECS = [
                   "S().startswith(S0() + 'A<![CDATA[&lt;')", "S().endswith(']]>B')"],
          raises={'*': {'ensures': ["raised('e1') or ext_count() > 0 or translate_calls() > 0"]}},
          serves=['C06']),
+    dict(id='S-PI-interp',
+         # a processing instruction is no opt-out: a value inserted into one is escaped like text
+         text='A<?foo x="${e1}"?>B',
+         ensures=["evals(1) == 1", "quote_calls() == 1",
+                  "S() == S0() + 'A<?foo x=\"' + ('' if quoted(val(1), '\\0', '&#0;', None, None) is None "
+                  "else piece(quoted(val(1), '\\0', '&#0;', None, None))) + '\"?>B'"],
+         raises={'*': {'ensures': ["raised('e1')"]}},
+         serves=['C02', 'C06']),
     dict(id='S-Interp-off', text='A<p meta:interpolation="off">${e1} $ {x}</p>B',
          ensures=["evals(1) == 0", "S() == S0() + 'A<p>${e1} $ {x}</p>B'"],
          serves=['C06']),
